@@ -6,7 +6,8 @@ EXPLANATION = ("CrossHair symbolic execution (z3) of the real ShareCrawler / Lea
 ASSUMPTIONS = [
     "prefix table cut to 3 prefixes; bucket layout fixed per case (the bucket set does not change during the run)",
     "the crawler is interrupted only where it reads the clock; at most two interruptions (no-crash form) / one interruption and one kill (crash form) per run of two cycles",
-    "a kill happens right after a process_bucket call or right after a state/history file has been committed (rename / close); torn writes are not modelled",
+    "a kill happens right after a process_bucket call, right after a state/history file has been committed (rename / close), or - for a file written "
+    "in place (not via *.tmp + rename) - between its open-for-writing (which truncates it) and its close; a partially written file is modelled as empty",
     "in-memory file system behind FilePath / move_into_place; real json encoding and decoding of the state",
 ]
 L1 = [["aa1", "aa2"], [], ["ac1"]]
@@ -45,6 +46,13 @@ OBLIGATIONS = [
         desc="one (thorough: two) interruption(s) and a clean shutdown (real stopService) + restart from the state file after the r-th slice "
              "(symbolic r), in particular after a slice that ended inside a prefix: nobody was killed mid-slice, so every bucket is processed "
              "exactly once per cycle"),
+    chx("crawl_new_bucket", "C27_h", "h_crawl_new_bucket",
+        bounds={"quick": {"J": 40, "two_jumps": False}, "thorough": {"J": 40, "two_jumps": True}},
+        cases=[{"layout": [None, ["ab1"], None], "_label": "only-middle-prefix"}, {"layout": [["aa1"], ["ab1", "ab2"], None], "_label": "two-prefixes"},
+               {"layout": [None, ["ab1"], []], "_label": "middle-and-empty-last"}],
+        timeout={"quick": 120, "thorough": 900},
+        desc="two cycles in ONE process with missing prefix directories (os.listdir raises), one (thorough: two) interruption(s), and a bucket "
+             "created right after cycle 0 finished: cycle 1 processes it (and every other bucket) exactly once - no stale directory listing survives a cycle"),
     chx("crawl_crash", "C27_h", "h_crawl_crash",
         bounds={"quick": {"J": 40, "crash_max": 14}, "thorough": {"J": 60, "crash_max": 30}},
         cases={"quick": [{"layout": L1, "_label": "L1"}],
@@ -62,8 +70,10 @@ OBLIGATIONS = [
              "once per cycle, history gets one entry per finished cycle whose counters equal the number of buckets (cycle-to-date reset by started_cycle)"),
     chx("lease_cycle_restart", "C27_h", "h_lease_cycle_restart",
         bounds={"quick": {"J": 24, "crash_max": 7}, "thorough": {"J": 50, "crash_max": 20}},
-        cases={"quick": [{"layout": L1, "_label": "L1"}], "thorough": [{"layout": L1, "_label": "L1"}, {"layout": L3, "_label": "L3"}]},
+        cases={"quick": [{"layout": L1, "torn_writes": False, "_label": "L1"}, {"layout": L1, "torn_writes": True, "_label": "L1-torn"}],
+               "thorough": [{"layout": L1, "torn_writes": False, "_label": "L1"}, {"layout": L3, "torn_writes": False, "_label": "L3"},
+                            {"layout": L1, "torn_writes": True, "_label": "L1-torn"}]},
         timeout={"quick": 120, "thorough": 1500},
-        desc="same, with one interruption and a process kill after any event, restart through the real constructors and the JSON state file: "
+        desc="same, with one interruption and a process kill after any event (-torn: also inside a file written in place), restart through the real constructors and the JSON state file: "
              "both cycles still complete, every bucket examined at least once per cycle, history entries present with counters >= number of buckets"),
 ]
